@@ -226,7 +226,9 @@ def run_config(ctx, rep, cfg):
                     b = f.insts[b[1]]["ops"][0]
                 ld = f.insts[b[1]] if b[0] == "i" else None
                 helper_info[f.key] = {"pa": pa_op[1], "la": la_op[1], "wipe": c, "free": fr,
-                                      "load_before": bool(ld is not None and ld["op"] == "load" and f.inst_dominates(ld["id"], c["id"]))}
+                                      # the freed pointer arrives by value: whatever the caller loaded before the call
+                                      "by_value": b[0] == "a",
+                                      "load_before": bool(b[0] == "a" or (ld is not None and ld["op"] == "load" and f.inst_dominates(ld["id"], c["id"])))}
     for f in sorted(prog.defined(), key=lambda x: x.key):
         frees = [("direct", fr, None) for fr in direct_calls(f, {"free"})]
         if f.key in helper_info:
@@ -344,7 +346,9 @@ def run_config(ctx, rep, cfg):
                        (f.loc(w), "is" if same else "is the base pointer stored inside", addr_str(Aw, prog)), cfg=cn)
             # R4
             if inside and fkind == "helper":
-                if helper_info[hg.key]["load_before"]:
+                if helper_info[hg.key].get("by_value"):
+                    rep.ok("C17.R4", cons, site, "the base pointer %s is loaded here and handed to %s by value, before that helper wipes" % (addr_str(Af, prog), hg.name), cfg=cn)
+                elif helper_info[hg.key]["load_before"]:
                     rep.ok("C17.R4", cons, site, "%s loads the base pointer %s before it wipes" % (hg.name, addr_str(Af, prog)), cfg=cn)
                 else:
                     rep.violation("C17.R4", cons, site, "%s reads the base pointer %s after the wipe zeroed it: free() receives NULL and the block leaks" % (hg.name, addr_str(Af, prog)), cfg=cn)
@@ -434,7 +438,7 @@ def run(ctx, rep):
         nfree, expected, nw = run_config(ctx, rep, cfg)
         if cfg is None:
             rep.floor("C17.R1", "release sites in the library", nfree, 6)
-            rep.floor("C17.R3", "wipe primitives in use", nw, 6)
+            rep.floor("C17.R3", "wipe primitives in use", nw, 1)
             n5 = run_r5(ctx, rep, cfg, expected)
             rep.floor("C17.R5", "release sites in -O3 IR", n5, 6)
             rep.analysed["free_sites"] = nfree
